@@ -30,6 +30,10 @@ type enumC16Loop struct {
 	Repeats int    `json:"repeats"` // how many times a newer undecodable / vanishing blob follows
 	Kind    string `json:"kind"`    // corrupt | vanish
 	Peers   int    `json:"peers"`
+	// App (C09's use of this harness): in every repeat the application commits a new key after the newer blobs were
+	// published (while the old snapshots are being handed over again); at the end the instance's newest own
+	// snapshot must carry every one of those keys
+	App bool `json:"app,omitempty"`
 }
 
 func checkC16Loop(e enumC16Loop, o *vcore.Obs) error {
@@ -128,6 +132,7 @@ func checkC16Loop(e enumC16Loop, o *vcore.Obs) error {
 	}
 	// then, repeatedly: a newer blob of each peer that is undecodable (or gone by the time it is fetched); the
 	// previous snapshot is the newest usable one again and is handed to the loop once more
+	appVals := map[string]string{}
 	for r := 0; r < e.Repeats; r++ {
 		for _, p := range peers {
 			name := publish(p, 0, "", false)
@@ -135,6 +140,25 @@ func checkC16Loop(e enumC16Loop, o *vcore.Obs) error {
 				time.Sleep(time.Millisecond)
 				b.Remove(name)
 			}
+		}
+		if e.App {
+			// give the receiver time to hand the older snapshots over again, then commit (the loop is parked)
+			time.Sleep(time.Duration(3+2*r) * time.Millisecond)
+			k, v := fleetKeys[(5+r)%len(fleetKeys)], fmt.Sprintf("app-%d", r)
+			if err := env.Update(func(txn *lmdb.Txn) error {
+				dbi, err := txn.OpenDBI(fleetDBIs[1], lmdb.Create)
+				if err != nil {
+					return err
+				}
+				val := []byte(v)
+				if e.Native {
+					val = model.BuildHeader(uint64(time.Now().UnixNano()), uint64(txn.ID()), 0, nil, val)
+				}
+				return txn.Put(dbi, k, val, 0)
+			}); err != nil {
+				return fmt.Errorf("harness: application commit: %v", err)
+			}
+			appVals[string(k)] = v
 		}
 		for i := 0; i < 3; i++ {
 			if err := runUntil("idle", func() bool { return true }); err != nil {
@@ -153,9 +177,75 @@ func checkC16Loop(e enumC16Loop, o *vcore.Obs) error {
 			return err
 		}
 	}
+	if e.App {
+		// C09: every key the application committed is in the instance's newest own snapshot once the loop is idle
+		published := func() (string, bool) {
+			own := ""
+			for _, n := range b.Names() {
+				if instOf(n) == "a" && n > own {
+					own = n
+				}
+			}
+			if own == "" {
+				return "no own snapshot", false
+			}
+			data, _ := b.Get(own)
+			flat, derr := DecodeBlob(data)
+			if derr != nil {
+				return own + ": " + derr.Error(), false
+			}
+			for k, v := range appVals {
+				found := false
+				for _, d := range flat.DBIs {
+					if d.Name != fleetDBIs[1] {
+						continue
+					}
+					for _, en := range d.Entries {
+						if string(en.Key) == k && string(en.Value) == v && en.Flags&1 == 0 {
+							found = true
+						}
+					}
+				}
+				if !found {
+					return fmt.Sprintf("%s has no entry %s/%x = %q", own, fleetDBIs[1], k, v), false
+				}
+			}
+			return "", true
+		}
+		if err := runUntil("publication of the application's commits", func() bool { _, ok := published(); return ok }); err != nil {
+			why, _ := published()
+			return fmt.Errorf("the application committed %d key(s) while older snapshots of its peers were handed over again (newer blobs %s); the loop is idle and its newest own snapshot still lacks one: %s (%v)", len(appVals), e.Kind, why, err)
+		}
+	}
 	o.NonTrivial(e.Repeats >= e.Limit)
 	o.Class("kind-" + e.Kind)
 	return nil
+}
+
+// ---- C09 in the same situation: a commit made while an older snapshot is handed over again gets published ----
+
+func TestC09Redeliver(t *testing.T) {
+	vcore.RunEnum(t, vcore.Config{Property: "C09", Inflight: true,
+		Rule: "enumeration over the real sync loop (scheduler), memory limits {1,3}, 1-3 peers, {native, shadow}: every peer publishes a snapshot (merged), then 1-4 times a newer blob that is undecodable / vanishes - the previous snapshot is handed to the loop AGAIN - and the application commits a new key at that moment (loop parked, 3-9 ms after the blobs appeared); then a new valid snapshot of every peer; once the loop is idle the instance's newest own snapshot carries every key the application committed; non-trivial = at least two repeats"},
+		func(yield func(enumC16Loop) bool) {
+			for _, native := range []bool{true, false} {
+				for _, limit := range []int{1, 3} {
+					for _, rep := range []int{1, 2, 4} {
+						for _, kind := range []string{"corrupt", "vanish"} {
+							for _, peers := range []int{1, 3} {
+								if !yield(enumC16Loop{Native: native, Limit: limit, Repeats: rep, Kind: kind, Peers: peers, App: true}) {
+									return
+								}
+							}
+						}
+					}
+				}
+			}
+		}, func(e enumC16Loop, o *vcore.Obs) error {
+			err := checkC16Loop(e, o)
+			o.NonTrivial(e.Repeats >= 2)
+			return err
+		})
 }
 
 func TestC16LoopRedeliver(t *testing.T) {
